@@ -92,11 +92,23 @@ def dump_items(name, deps, items, dep_roots, extra_rs='', max_rounds=6):
     import re
     dropped = {}
     items = dict(items)
+    dirs = set()
+    for k in deps:
+        for sd in CRATE_DIRS.get(k, []):
+            dirs.add(sd)
+    th0 = tree_hash(sorted(dirs) + ['Cargo.lock'], extra=json.dumps(sorted(items.items())) + extra_rs)
+    dcache = os.path.join(WORK, 'mir', name, 'dropped_%s.json' % th0)
+    if os.path.exists(dcache):
+        dropped = json.load(open(dcache))
+        for b in dropped:
+            items.pop(b, None)
     for _ in range(max_rounds):
         ids = sorted(items)
         src = extra_rs + '\n' + '\n'.join('%s /*ITEM:%s*/' % (items[i], i) for i in ids) + '\n'
         try:
-            return dump(name, deps, src, dep_roots), dropped
+            out = dump(name, deps, src, dep_roots)
+            json.dump(dropped, open(dcache, 'w'))
+            return out, dropped
         except RuntimeError as e:
             text = str(e)
             lib = open(os.path.join(WORK, 'mir', name, 'src', 'lib.rs')).read().splitlines()
